@@ -11,7 +11,11 @@ CHECKS["C09"] = dict(
           "verification and concurrent verification under -race. Reference: S = distinct signers of valid single-signer votes "
           "for the block that are effective (block known, or a proposal event released the deferred vote). Oracle after every "
           "delivery: no certificate before |S| reaches the quorum, a certificate once it has, every emitted certificate names "
-          "the block and its view, has signers within S and verifies at another replica. tree: see TestC09Kauri. Non-trivial = a "
+          "the block and its view, has signers within S and verifies at another replica. multi-block (TestC09*MultiBlock): 2..4 known "
+          "blocks of views 1..4 (chains and siblings), up to 30 interleaved valid/duplicate/garbage votes from all replicas; a set S_X "
+          "per block X counts while X is newer than the collector's high QC; a certificate for X exactly at the vote that completes "
+          "S_X, and votes for one block never disturb the votes collected for another. tree: see TestC09Kauri (signature cache of the "
+          "tree node on and off). Non-trivial = a "
           "certificate formed after a hostile vote or a vote that preceded its block; distinct = the history."),
     assumptions=["the voters hold the block they vote for, so the collector can fetch it", "concurrent verification: interleavings are sampled under the race detector; waiting for goroutines uses time only as a guard (inconclusive, never a violation)"],
 )
